@@ -445,6 +445,53 @@ def census(known_refcells):
     return [f for f in found if f in allowed]
 
 
+def glyf_table_memo():
+    """the lazily parsed GlyfTable (src/tables/glyf.rs, glyf/outline.rs): the model Model/GlyfTableMemo.v says that
+    drawing writes to the table only through get_parsed_glyph (Present -> Parsed in place) and that the recursion
+    is cut at depth > COMPOSITE_GLYPH_RECURSION_LIMIT.  Returns the limit."""
+    glyf = strip_tests(strip_comments(read("src/tables/glyf.rs")))
+    outline = strip_tests(strip_comments(read("src/tables/glyf/outline.rs")))
+    m = re.search(r"const COMPOSITE_GLYPH_RECURSION_LIMIT\s*:\s*u8\s*=\s*(\d+)\s*;", glyf)
+    if not m:
+        raise Broken("COMPOSITE_GLYPH_RECURSION_LIMIT not found in src/tables/glyf.rs")
+    limit = int(m.group(1))
+    # the functions of glyf.rs that take the table / a record by &mut: the model knows these
+    muts = re.findall(r"fn\s+(%s)\s*(?:<[^>(]*>)?\s*\(\s*&(?:'\w+\s+)?mut\s+self" % IDENT, glyf)
+    want = ["records_mut", "push", "get_parsed_glyph", "take", "replace", "parse", "add"]
+    if muts != want:
+        raise Broken("src/tables/glyf.rs: &mut self functions are %s, the model knows %s" % (muts, want))
+    _, gp, _ = function(glyf, "get_parsed_glyph")
+    if not re.search(r"\.get_mut\(usize::from\(glyph_index\)\)\s*\.ok_or\(ParseError::BadIndex\)\?\s*;\s*record\.parse\(\)\?\s*;", gp):
+        raise Broken("get_parsed_glyph is not `records.get_mut(i).ok_or(BadIndex)?; record.parse()?`")
+    i = glyf.index("impl<'a> GlyfRecord<'a>")
+    _, pr, _ = function(glyf[i:], "parse")
+    if not re.search(r"if let GlyfRecord::Present \{ scope, \.\. \} = self \{\s*\*self = scope\.read::<Glyph<'_>>\(\)"
+                     r"\.map\(GlyfRecord::Parsed\)\?\s*;\s*\}\s*Ok\(\(\)\)", pr):
+        raise Broken("GlyfRecord::parse is not `if Present { *self = scope.read::<Glyph>().map(Parsed)? } Ok(())`")
+    # outline.rs: the table is written only through get_parsed_glyph
+    body = outline[:outline.index("mod contour")] if "mod contour" in outline else outline
+    calls = sorted(set(re.findall(r"\bself\s*\.\s*(%s)\s*\(" % IDENT, body)))
+    known = ["get_parsed_glyph", "visit_composite_glyph_outline", "visit_outline"]
+    if calls != known:
+        raise Broken("src/tables/glyf/outline.rs calls self.%s, the model knows %s" % (calls, known))
+    for bad in (r"self\s*\.\s*records", r"records_mut", r"\bmem::", r"\.take\(", r"\.replace\(", r"\.push\(", r"\bunsafe\b"):
+        if re.search(bad, body):
+            raise Broken("src/tables/glyf/outline.rs: %s (drawing must not write to the table except by parsing a record)" % bad)
+    _, vo, _ = function(body, "visit_outline")
+    if not re.search(r"^\s*if depth > COMPOSITE_GLYPH_RECURSION_LIMIT \{\s*return Err\(ParseError::LimitExceeded\);\s*\}\s*"
+                     r"let glyph = self\.get_parsed_glyph\(glyph_index\)\?;", vo):
+        raise Broken("visit_outline does not start with the depth test and get_parsed_glyph(glyph_index)?")
+    if not re.search(r"let glyphs = composite\.glyphs\.clone\(\);\s*self\.visit_composite_glyph_outline\(sink, &glyphs, transform, depth\)", vo):
+        raise Broken("visit_outline: the composite arm is not `clone the component list, visit it`")
+    _, vc, _ = function(body, "visit_composite_glyph_outline")
+    if not re.search(r"self\.visit_outline\(\s*composite_glyph\.glyph_index,\s*sink,\s*transform \* component_transform,\s*depth \+ 1,?\s*\)\?;", vc):
+        raise Broken("visit_composite_glyph_outline does not recurse with `depth + 1` and `?`")
+    _, vv, _ = function(body[body.index("impl<'a> OutlineBuilder for GlyfTable<'a>"):], "visit")
+    if not re.search(r"self\.visit_outline\(glyph_index, visitor, Transform2F::default\(\), 0\)", vv):
+        raise Broken("OutlineBuilder::visit does not start visit_outline at depth 0")
+    return limit
+
+
 def coq_str_list(l):
     return "[" + "; ".join('"%s"' % x for x in l) + "]"
 
@@ -524,6 +571,8 @@ def main():
     for mm in re.finditer(r"GlyphTableFlags::(\w+)", hgo):
         outl |= gtf[mm.group(1)]
 
+    glyf_limit = glyf_table_memo()
+
     o = []
     o.append("(* GENERATED by translators/tr_caches.py from the allsorts sources - do not edit. *)")
     o.append("From Coq Require Import ZArith List String.\nImport ListNotations.\nOpen Scope Z_scope.\nOpen Scope string_scope.\n")
@@ -555,6 +604,8 @@ def main():
         o.append("Definition GTF_%s : Z := %d." % (k, gtf[k]))
     o.append("Definition DEFAULT_IMAGE_FILTER : Z := %d." % dflt_filter)
     o.append("Definition OUTLINE_FLAGS : Z := %d." % outl)
+    o.append("(* src/tables/glyf.rs; visit_outline fails with LimitExceeded when depth > this *)")
+    o.append("Definition COMPOSITE_GLYPH_RECURSION_LIMIT : Z := %d." % glyf_limit)
     txt = "\n".join(o) + "\n"
     out = os.path.normpath(OUT)
     old = open(out).read() if os.path.exists(out) else None
